@@ -130,6 +130,7 @@ def _caller_guarded(E: Engine, f: FunctionInfo, attr: str) -> Optional[str]:
         ab = abstractor(fl)
         want = frozenset(r + "." + attr for r in ab.av(recv).roots)
         dnf = ab.enclosing_conditions(n)
+        all_ok = True
         for conj in dnf:
             ok = False
             for lit in conj:
@@ -143,9 +144,35 @@ def _caller_guarded(E: Engine, f: FunctionInfo, attr: str) -> Optional[str]:
                 if a is not None and a.rel == "NotIn" and f"const:{attr!r}" in a.lhs.roots and any(r.endswith("._optional_parameters") for r in a.rhs.roots):
                     ok = True
             if not ok:
-                return None
+                all_ok = False
+        if not all_ok and not _sym_call_guarded(E, caller, n, attr):
+            return None
         descr.append(caller.short)
     return "guarded at every call site (" + ", ".join(sorted(set(descr))) + f"): `<receiver>.{attr} is not None`"
+
+
+def _sym_call_guarded(E: Engine, caller: FunctionInfo, call_node: ast.AST, attr: str) -> bool:
+    """The same decision on the symbolic normal form of the caller (a guard written through a private boolean helper,
+    `not self._is_undefined("max_x")`, is inlined there): on every alternative of the call's path condition some literal
+    says `<recv>.<attr> is not None` or `"<attr>" not in <recv>._optional_parameters`."""
+    from . import sym
+    from .rules.symutil import dnf as _dnf
+
+    S = sym.sym_of(E.P, caller, True)
+    logged = [l for l in S.log if l.kind == "call" and l.node is call_node]
+    if not logged:
+        return False
+    for l in logged:
+        for conj in _dnf(l.cond):
+            ok = False
+            for x in conj:
+                if x[0] == "cmp" and x[1] == "IsNot" and sym.NONE in (x[2], x[3]) and any(t[0] == "attr" and t[2] == attr for t in (x[2], x[3])):
+                    ok = True
+                if x[0] == "cmp" and x[1] == "NotIn" and x[2] == ("const", attr) and x[3][0] == "attr" and x[3][2] == "_optional_parameters":
+                    ok = True
+            if not ok:
+                return False
+    return True
 
 
 def _callers_excepted(E: Engine, f: FunctionInfo, attr: str, exceptions: dict[str, str], depth: int = 0) -> Optional[str]:
